@@ -116,17 +116,10 @@ def C07_1_2(ctx, facts):
         hit = [c for c in once + execs if c.bb in reach]
         ctx.check(not hit, "GracefulShutdown::poll|ready-stops-accepting", "after the signal resolved no accept step and no spawn is reachable",
                   "after the signal resolved the server can still accept / spawn: %s" % [x.where() for x in hit], f.where(a))
-        # return value Ready(Ok(()))
-        rets = [x for x in assigns_to_return(f, reach)]
-        okv = False
-        for (k, bb, x) in rets:
-            if k == "stmt" and x["r"].get("v") == "Ready":
-                rr = f.roots(x["r"]["ops"][0], through_calls=False)
-                d = f.unique_def(op_place(x["r"]["ops"][0])["l"]) if op_place(x["r"]["ops"][0]) else None
-                if d and d[0] == "stmt" and d[3]["r"].get("v") == "Ok":
-                    okv = True
-        ctx.check(okv and len(rets) == 1, "GracefulShutdown::poll|ready-returns-ok", "the serving future then completes with Ready(Ok(()))",
-                  "the post-signal return value is not Ready(Ok(()))", f.where(a))
+    # the whole loop as a trace table (gstable.py): order of the polls in every round, what follows the signal (send, then
+    # Ready(Ok(())) and nothing else), what an accepted connection is spawned with
+    import gstable
+    gstable.table(ctx, facts, R)
 
 
 def C07_3(ctx, facts):
